@@ -63,6 +63,8 @@ PARENTS_STMT = [
     'for u in v, w: pass', 'u[v] = w', 'u.a = v', 'del u[v], w.a', 'x = [u, v] = w', 'x = *u, v = w',
     'print(u, file=v)', 'match u:\n case 1: pass', 'match u, v:\n case 1: pass', 'match u:\n case 1 if v: pass',
     'u = v if w else z', 'u = lambda: v', 'global g', 'import m',
+    'async with u: pass', 'async with u, v: pass', 'with u, v: pass', 'with (u): pass', 'async with (u as v): pass',
+    'try: pass\nexcept* u as e: pass', 'for u in v: pass\nelse: pass', 'async def f(a=u) -> v: pass', 'x = u,', 'return (u)',
 ]
 
 PARENTS_PATTERN = [
